@@ -218,14 +218,19 @@ class BaseSection(base.Sectionable):
             return
 
         term = terminology.load(url)
-        if term is None:
-            # The included file could not be fetched or parsed: keep the
-            # reference unresolved so nested loading does not break.
+        new_section = None
+        if term is not None:
+            if path is not None:
+                new_section = term.get_section_by_path(path)
+            elif term.sections:
+                new_section = term.sections[0]
+
+        if new_section is None:
+            # The included file could not be fetched or parsed, or it contains
+            # no Section that could be included: keep the reference unresolved
+            # so nested loading does not break.
             self._include = new_value
             return
-
-        new_section = term.get_section_by_path(
-            path) if path is not None else term.sections[0]
 
         if self._include is not None:
             self.clean()
